@@ -9,6 +9,7 @@ package main
 
 import (
 	"bytes"
+	"context"
 	"encoding/json"
 	"fmt"
 	"math/rand"
@@ -18,8 +19,13 @@ import (
 	"reflect"
 	"strings"
 
+	corev1 "k8s.io/api/core/v1"
+	metav1 "k8s.io/apimachinery/pkg/apis/meta/v1"
+	"sigs.k8s.io/controller-runtime/pkg/client"
+
 	"github.com/AliyunContainerService/terway/types/daemon"
 
+	"verifharness/apisim"
 	"verifharness/monitor"
 )
 
@@ -251,6 +257,19 @@ func runC20(c *ctxT) {
 			}
 			r.Violate("C20.merge-differs-from-rfc7396", site, "result differs from RFC 7396 merge: "+cfgDiff(got, want), rep)
 		}
+		// the node-level entry point (what daemon, webhook and controllers read): the cluster ConfigMap overlaid
+		// by the node's dynamic ConfigMap must give what the cluster ConfigMap alone gives when it already holds
+		// the reference-merged document
+		if i%4 == 0 {
+			layered, lerr := c20FromConfigMaps(string(bb), string(ob))
+			flat, ferr := c20FromConfigMaps(string(rb), "")
+			r.Count("configmap_layering_cases", 1)
+			if (lerr == nil) != (ferr == nil) {
+				r.Violate("C20.merge-differs-from-rfc7396", "configmap/error-ness", fmt.Sprintf("ConfigFromConfigMap: layered err=%v, pre-merged err=%v", lerr, ferr), rep)
+			} else if lerr == nil && !reflect.DeepEqual(layered, flat) {
+				r.Violate("C20.merge-differs-from-rfc7396", "configmap/value", "ConfigFromConfigMap (cluster + node overlay) differs from the reference-merged document: "+cfgDiffSafe(layered, flat), rep)
+			}
+		}
 		// law 1: empty overlay
 		if len(over) == 0 {
 			baseOnly, berr := cfgFromBytes(bb)
@@ -341,4 +360,25 @@ func runInpkg(c *ctxT, bin, test string, netns bool) {
 	}
 	d.Rule = ""
 	r.Merge(d)
+}
+
+func c20FromConfigMaps(base, overlay string) (*daemon.Config, error) {
+	objs := []client.Object{&corev1.ConfigMap{ObjectMeta: metav1.ObjectMeta{Name: "eni-config", Namespace: "kube-system"}, Data: map[string]string{"eni_conf": base}}}
+	node := &corev1.Node{ObjectMeta: metav1.ObjectMeta{Name: "node-1", Labels: map[string]string{}}}
+	if overlay != "" {
+		node.Labels["terway-config"] = "dyn"
+		objs = append(objs, &corev1.ConfigMap{ObjectMeta: metav1.ObjectMeta{Name: "dyn", Namespace: "kube-system"}, Data: map[string]string{"eni_conf": overlay}})
+	}
+	objs = append(objs, node)
+	var cfg *daemon.Config
+	var err error
+	func() {
+		defer func() {
+			if e := recover(); e != nil {
+				err = fmt.Errorf("panic: %v", e)
+			}
+		}()
+		cfg, err = daemon.ConfigFromConfigMap(context.Background(), apisim.New(nil, objs...), "node-1")
+	}()
+	return cfg, err
 }
